@@ -47,6 +47,7 @@ var c02zQueries = []c02zQuery{
 	{"w.example.", false, false, false, false},   // empty non-terminal
 	{"x.w.example.", false, false, true, false},  // wildcard match
 	{"y.x.w.example.", false, false, true, false},
+	{"!.w.example.", false, false, true, false}, // wildcard match that sorts before the wildcard owner: only the NSEC's next name shows the encloser
 	{"d.example.", false, true, false, true},
 	{"x.d.example.", false, false, false, false}, // below an insecure delegation
 	{"dn.example.", false, true, false, false},
@@ -88,7 +89,7 @@ func c02zHas(types []uint16, t uint16) bool {
 //
 //verif:entry tier=quick,thorough
 //verif:expect nxdomain-never-accepted-for-a-name-that-exists nodata-never-accepted-for-a-type-that-is-present nodata-at-a-zone-cut-only-for-ds some-denial-accepted
-//verif:bound one zone (apex, plain owner, alias, insecure delegation, DNAME, signed delegation, wildcard with empty non-terminal, last owner) with its genuine NSEC chain of 8 records; every subset of the chain; 18 query names (owners, non-existent siblings and children, the empty non-terminal, wildcard matches at two depths, names below each zone cut and below the DNAME, a mixed-case spelling); query types A, TXT, NS, DS, CNAME, DNAME
+//verif:bound one zone (apex, plain owner, alias, insecure delegation, DNAME, signed delegation, wildcard with empty non-terminal, last owner) with its genuine NSEC chain of 8 records; every subset of the chain; 19 query names (owners, non-existent siblings and children, the empty non-terminal, wildcard matches at two depths, names below each zone cut and below the DNAME, a mixed-case spelling); query types A, TXT, NS, DS, CNAME, DNAME
 //verif:outside label alphabets and depths beyond this zone; NSEC3 (VerifC02_NSEC3Covers covers the interval test only); records replayed from other zones (the caller filters to the validated signer, VerifC01_NameInZone)
 func VerifC02_NSECZoneSoundness() {
 	var set []dns.RR
